@@ -64,10 +64,37 @@ def long_name_texts():
             name = "a" * pre + w * 3 + "z" * 5
             for t in (tmpls if pre % 7 == 0 or 28 <= pre <= 34 or 60 <= pre <= 66 else tmpls[:6]):
                 out.append(t.format(n=name))
+    for pre in (1, 2, 3, 5):
+        for w in wide:
+            for N in list(range(56, 70)) + list(range(120, 132)) + list(range(240, 262)):
+                name = "x" * pre + w * N
+                out.append("%s;" % name)
+                out.append("break %s;" % name)
+                out.append("loop { continue %s; }" % name)
     for L in (10, 11, 12, 16, 17, 20, 31, 32, 33, 64, 65, 100, 255, 256, 257, 1000):
         for w in wide:
             for t in tmpls[:8]:
                 out.append(t.format(n=w * L))
+    return out
+
+
+def label_scope_texts():
+    """labelled loops, function literals / function statements / filter statements nested in them, and break / continue with
+    every label in scope or out of scope, at every depth up to 3 loops outside and 2 inside the function"""
+    out = []
+    labels = ["x", "y", "z"]
+    for outer in range(1, 4):
+        for inner in range(0, 3):
+            for kw in ("break", "continue"):
+                for target in labels[:outer] + ["q", "w"]:
+                    for wrap in ("let f = fn() { %s };", "fn g() { %s }", "@ true { %s }", "let h = fn(a) { fn() { %s } };"):
+                        body = "%s %s;" % (kw, target)
+                        for d in range(inner):
+                            body = "%sloop { %s }" % (("w: " if d == inner - 1 and inner > 1 else ""), body)
+                        text = wrap % body
+                        for d in range(outer - 1, -1, -1):
+                            text = "%s: loop { %s break %s; }" % (labels[d], text, labels[d])
+                        out.append(text)
     return out
 
 
@@ -303,6 +330,8 @@ def run(chk):
         texts.append(("unicode", t))
     for t in long_name_texts():
         texts.append(("long-name", t))
+    for t in label_scope_texts():
+        texts.append(("label-scope", t))
     texts.extend(chains())
     cases = [Case("t%d" % i, t, {"stage": "compile"}) for i, (_, t) in enumerate(texts)]
     res = core.run_cases(cases, shards=shards, timeout=(60 if quick else 600), max_hangs=1)
